@@ -11,7 +11,7 @@ mkdir -p bin evidence replays
 for d in /dev/shm/verif-[0-9]*-[0-9]* /dev/shm/verif-shards-* /dev/shm/verif-c04-* /dev/shm/verif-replay-*; do
   [ -e "$d" ] || continue
   pid=$(echo "$d" | sed -n 's|/dev/shm/verif-\([0-9]*\)-[0-9]*$|\1|p')
-  if [ -n "$pid" ]; then [ -d "/proc/$pid" ] || rm -rf "$d"; else find "$d" -maxdepth 0 -mmin +120 -exec rm -rf {} + 2>/dev/null; fi
+  if [ -n "$pid" ]; then [ -d "/proc/$pid" ] || rm -rf "$d"; else find "$d" -maxdepth 0 -mmin +1500 -exec rm -rf {} + 2>/dev/null; fi
 done
 
 build_s() {
